@@ -764,7 +764,9 @@ def handleEvent (c : Conn) (t : Token) : Conn × Bytes × Option Err :=
     | none =>
       if r then
         let (c2, e2) := readFromStream c1
-        (c2, wrote, e2)
+        -- once the server has confirmed the client's close, a failing read is no longer an
+        -- error (the server is free to hang up right away)
+        if !c2.legacy && c2.st = .clientClosed then (c2, wrote, none) else (c2, wrote, e2)
       else (c1, wrote, none)
   | .heartbeat => (c, [], none)     -- no timers are started in this machine (see M9 / C17)
   | .setBlocked =>
